@@ -35,6 +35,9 @@ KERNELS = [
     K("k_kek_len_nonce_get", "_gkdi.py", "GroupKeyEnvelope.get_kek", ("callarg", "kdf", 0, 4), [], Z, props=("C03",)),
     K("k_kek_len_nonce_new", "_gkdi.py", "GroupKeyEnvelope.new_kek", ("callarg", "kdf", 0, 4), [], Z, props=("C03",)),
     K("k_kek_len_pub", "_gkdi.py", "compute_kek", ("callarg", "kdf", 0, 4), [], Z, props=("C03",)),
+    # FFCDHKey.unpack refuses data shorter than the three key_length-octet integers it announces (bounds key_length by the input size)
+    K("k_ffcdhkey_short", "_gkdi.py", "FFCDHKey.unpack", ("if_mentions", "key_length", 0),
+      [("len_view", Z), ("key_length", Z)], B, props=("C05", "C11", "C03")),
 ]
 
 _U0 = "uuid.UUID(int=0)"
